@@ -8,6 +8,7 @@ import re
 from ..cfg import enum_paths
 from ..constfold import ConstEnv
 from ..loader import AnalysisError, call_attr, unparse
+from ..rulekit import flatten_const_ifs, only_return_value
 from ..pyxlower import strip_casts
 from .c10 import DEF, LEG, MEM, CUT, Pyx, ob
 from ..bounds import FnBounds
@@ -73,7 +74,7 @@ def rule_header_table(ctx, px):
                         ("first_timestamp", "first_timestamp"), ("max_timestamp", "max_timestamp"), ("producer_id", "producer_id"),
                         ("producer_epoch", "producer_epoch"), ("base_sequence", "base_sequence")):
         pf = ctx.fn(f"{PYD}._DefaultRecordBatchPy.{prop}")
-        ctx.ob(R, pf, pf.node, unparse(pf.node.body[-1]) == f"return self._header_data[{idx[field]}]", f"property {prop} does not return header field {idx[field]}", text=f"py-prop:{prop}")
+        ctx.ob(R, pf, pf.node, only_return_value(pf.node) is not None and unparse(only_return_value(pf.node)) == f"self._header_data[{idx[field]}]", f"property {prop} does not return header field {idx[field]}", text=f"py-prop:{prop}")
     ctx.ob(R, fi0, fi0.node, "self._num_records = self._header_data[12]" in unparse(fi0.node) and "self._pos = self.HEADER_STRUCT.size" in unparse(fi0.node), "record count / first record position not taken from the header struct", text="py-count-pos")
     # Cython DEF chain
     defs = _pxi_defs(ctx.repo.root, "aiokafka/record/_crecords/default_records.pyx")
@@ -176,7 +177,7 @@ def _reader_ops_py(fn):
     ops = []
 
     def visit(stmts, inloop):
-        for s in stmts:
+        for s in flatten_const_ifs(stmts):
             if isinstance(s, ast.Assign) and isinstance(s.value, ast.Call) and unparse(s.value.func).endswith("decode_varint"):
                 t = s.targets[0]
                 nm = unparse(t.elts[0]) if isinstance(t, ast.Tuple) else unparse(t)
@@ -200,7 +201,7 @@ def _reader_ops_pyx(fn):
     ops = []
 
     def visit(stmts, inloop):
-        for s in stmts:
+        for s in flatten_const_ifs(stmts):
             if isinstance(s, ast.Expr) and isinstance(s.value, ast.Call) and call_attr(s.value) == "decode_varint64":
                 a = strip_casts(s.value.args[-1])
                 ops.append(("varint", unparse(a.args[0]) if isinstance(a, ast.Call) else unparse(a), inloop))
@@ -238,7 +239,7 @@ def _writer_shape_py(fn):
     out = []
 
     def visit(stmts):
-        for s in stmts:
+        for s in flatten_const_ifs(stmts):
             if isinstance(s, ast.Expr) and isinstance(s.value, ast.Call):
                 f = unparse(s.value.func)
                 if f == "encode_varint":
@@ -270,7 +271,7 @@ def _writer_shape_pyx(fn):
     out = []
 
     def visit(stmts):
-        for s in stmts:
+        for s in flatten_const_ifs(stmts):
             if isinstance(s, ast.Expr) and isinstance(s.value, ast.Call):
                 f = call_attr(s.value)
                 if f in ("encode_varint", "encode_varint64"):
@@ -660,13 +661,16 @@ def rule_next_offset(ctx, px):
     R = "next-offset"
     ctx.rep.rule(R, "next_offset of a v2 batch is base_offset + last_offset_delta + 1 in both implementations; of a legacy batch the wrapper's offset + 1")
     pf = ctx.fn(f"{PYD}._DefaultRecordBatchPy.next_offset")
-    ctx.ob(R, pf, pf.node, unparse(pf.node.body[-1]) == "return self.base_offset + self.last_offset_delta + 1", "python v2 next_offset", text="py-v2")
+    def _ret(f):
+        v = only_return_value(f.node)
+        return unparse(v) if v is not None else None
+    ctx.ob(R, pf, pf.node, _ret(pf) == "self.base_offset + self.last_offset_delta + 1", "python v2 next_offset", text="py-v2")
     cf = px.fn(f"{DEF}.DefaultRecordBatch.next_offset")
-    ob(ctx, R, cf, cf.node.lineno, "pyx-v2", unparse(cf.node.body[-1]) == "return self.base_offset + self.last_offset_delta + 1", "compiled v2 next_offset")
+    ob(ctx, R, cf, cf.node.lineno, "pyx-v2", _ret(cf) == "self.base_offset + self.last_offset_delta + 1", "compiled v2 next_offset")
     cl = px.fn(f"{LEG}.LegacyRecordBatch.next_offset")
-    ob(ctx, R, cl, cl.node.lineno, "pyx-legacy", unparse(cl.node.body[-1]) == "return self._main_record.offset + 1", "compiled legacy next_offset")
+    ob(ctx, R, cl, cl.node.lineno, "pyx-legacy", _ret(cl) == "self._main_record.offset + 1", "compiled legacy next_offset")
     pl = ctx.fn(f"{PYL}._LegacyRecordBatchPy.next_offset")
-    ctx.ob(R, pl, pl.node, unparse(pl.node.body[-1]) == "return self._offset + 1", "python legacy next_offset", text="py-legacy")
+    ctx.ob(R, pl, pl.node, _ret(pl) == "self._offset + 1", "python legacy next_offset", text="py-legacy")
 
 
 def rule_mask_compare(ctx, px):
